@@ -1,6 +1,7 @@
 package state
 
 import (
+	"io/fs"
 	"context"
 	"errors"
 	"fmt"
@@ -25,6 +26,7 @@ type verifConn struct {
 	faults      int
 	calls       []string
 	nextID      int
+	literals    map[imap.MessageID][]byte // what GetMessageLiteral can serve
 	sizeErr     error // when set, CreateMessage failures use this error (e.g. connector.ErrMessageSizeExceedsLimits)
 }
 
@@ -75,6 +77,9 @@ func (c *verifConn) CreateMessage(ctx context.Context, tx db.Transaction, mboxID
 	return nil, imap.NewInternalMessageID(), imap.Message{ID: imap.MessageID(fmt.Sprintf("rm-%d", c.nextID)), Flags: flags, Date: date}, literal, nil
 }
 func (c *verifConn) GetMessageLiteral(ctx context.Context, id imap.MessageID) ([]byte, error) {
+	if lit, ok := c.literals[id]; ok && !c.fail("GetMessageLiteral") {
+		return lit, nil
+	}
 	return nil, errVerifRemote
 }
 func (c *verifConn) AddMessagesToMailbox(ctx context.Context, tx db.Transaction, messageIDs []imap.MessageID, mboxID imap.MailboxID) ([]Update, error) {
@@ -121,6 +126,7 @@ func (c *verifConn) SetMessagesForwarded(ctx context.Context, tx db.Transaction,
 
 type verifStore struct {
 	data        map[imap.InternalMessageID][]byte
+	corrupt     map[imap.InternalMessageID]bool // files that exist but cannot be read back
 	log         []string
 	faultBudget int
 }
@@ -137,9 +143,12 @@ func (s *verifStore) fail(op string) bool {
 	return false
 }
 func (s *verifStore) Get(id imap.InternalMessageID) ([]byte, error) {
+	if s.corrupt[id] {
+		return nil, errors.New("verif: cache file is corrupt (decrypt / decompress error)")
+	}
 	b, ok := s.data[id]
 	if !ok {
-		return nil, errors.New("verif: no such file")
+		return nil, fs.ErrNotExist
 	}
 	return b, nil
 }
@@ -152,6 +161,7 @@ func (s *verifStore) Set(id imap.InternalMessageID, r io.Reader) error {
 		return err
 	}
 	s.data[id] = b
+	delete(s.corrupt, id)
 	return nil
 }
 func (s *verifStore) Delete(ids ...imap.InternalMessageID) error {
@@ -183,7 +193,7 @@ type verifWorld struct {
 }
 
 func verifNewWorld(lim limits.IMAP) *verifWorld {
-	w := &verifWorld{db: verifdb.New(), conn: &verifConn{}, store: &verifStore{data: map[imap.InternalMessageID][]byte{}}, lim: lim}
+	w := &verifWorld{db: verifdb.New(), conn: &verifConn{}, store: &verifStore{data: map[imap.InternalMessageID][]byte{}, corrupt: map[imap.InternalMessageID]bool{}}, lim: lim}
 	w.user = &verifUser{db: w.db, remote: w.conn, st: store.NewWriteControlledStore(w.store), delimiter: "/", hashes: utils.NewMessageHashesMap()}
 	rec := w.db.AddBox("Recovered Messages", "GLUON-INTERNAL-RECOVERY-MBOX", 1)
 	w.user.recovery = db.MailboxIDPair{InternalID: rec.ID, RemoteID: rec.Remote}
